@@ -6,7 +6,6 @@ import (
 	"testing"
 
 	mod "github.com/craterdog/go-collection-framework/v4"
-	cdc "github.com/craterdog/go-collection-framework/v4/cdcn"
 	col "github.com/craterdog/go-collection-framework/v4/collection"
 	"verifharness/cdcngen"
 	"verifharness/core"
@@ -87,14 +86,16 @@ func execDoc(c docCase, _ core.Source) (res core.Result) {
 	}
 	// one parser, two calls: what the first call returned belongs to the caller; changing it must not
 	// change what the second call returns
-	parser := cdc.Parser().Make()
+	// The parser has a past: other texts, some of them rejected half-way.
+	mask := int(core.Mix(uint64(len(c.Doc.Text))*31+uint64(len(c.Classes))) % 128)
+	parse := parserWithPast(mask)
 	var first, second any
-	if p, _ := lib.Call(func() {
-		first = parser.ParseSource(c.Doc.Text)
+	if p, payload := lib.Call(func() {
+		first = parse(c.Doc.Text)
 		scribble(first)
-		second = parser.ParseSource(c.Doc.Text)
+		second = parse(c.Doc.Text)
 	}); p {
-		res.Violation = core.Violate("C11/parser-reuse", "re-using one parser for the same text panicked\n%s", c.Doc.Text)
+		res.Violation = core.Violate("C11/parser-reuse", "one parser that had parsed other texts before (past %07b) rejected a sentence of the grammar: %s\n%s", mask, lib.Short(payload), c.Doc.Text)
 		return
 	}
 	if d := cdcngen.Matches(want, second, "$"); d != "" {
